@@ -231,25 +231,25 @@ type c16Exec struct {
 	labels map[string]bool
 	nt     bool
 	// pre-connect barrier (guarded by rig.mu)
-	preArmed    bool
-	preArrived  int
-	preRelease  map[int]chan struct{}
-	winArmed    bool
-	winArrived  int
-	winNeed     int
-	winCh       chan struct{}
-	curModel    string // expected current server; "?" when the model does not know
-	needServer  string // set when the proxy's own recovery ran: an alive player must be on some server
+	preArmed   bool
+	preArrived int
+	preRelease map[int]chan struct{}
+	winArmed   bool
+	winArrived int
+	winNeed    int
+	winCh      chan struct{}
+	curModel   string // expected current server; "?" when the model does not know
+	needServer string // set when the proxy's own recovery ran: an alive player must be on some server
 }
 
 type c16Sink struct{ hook func(name string) }
 
-func (s *c16Sink) Init(logr.RuntimeInfo)                  {}
-func (s *c16Sink) Enabled(int) bool                       { return false }
-func (s *c16Sink) Info(int, string, ...any)               {}
-func (s *c16Sink) Error(error, string, ...any)            {}
-func (s *c16Sink) WithValues(...any) logr.LogSink         { return s }
-func (s *c16Sink) WithName(name string) logr.LogSink      { s.hook(name); return s }
+func (s *c16Sink) Init(logr.RuntimeInfo)             {}
+func (s *c16Sink) Enabled(int) bool                  { return false }
+func (s *c16Sink) Info(int, string, ...any)          {}
+func (s *c16Sink) Error(error, string, ...any)       {}
+func (s *c16Sink) WithValues(...any) logr.LogSink    { return s }
+func (s *c16Sink) WithName(name string) logr.LogSink { s.hook(name); return s }
 
 func (x *c16Exec) label(l string) { x.labels[l] = true }
 
@@ -760,9 +760,9 @@ func (x *c16Exec) stepOverlap(st c16Step) {
 		x.release(q1)
 	}
 	x.waitReq(q1, false)
-	if canceledAt != "" {
-		x.release(q1)
-	}
+	// After a cancellation the backend stays silent (as before it): the proxy
+	// reports the failure first and closes the abandoned connection afterwards,
+	// so a backend answer in between would race with that close.
 	x.judge("overlap-first", q1, x.predict(x.names[st.T1], sc, canceledAt), before)
 }
 
